@@ -1,7 +1,7 @@
 """C19 - swarm actions run once per member with the right arguments and error report."""
 import ast
 
-from ..astutil import catches_everything, dotted, method_call
+from ..astutil import catches_everything, dotted, effective, method_call
 from ..cfg import cfg_of, fact_key, norm, walk_own
 from ..mutate import B, M
 from ..symexec import paths_of
@@ -220,7 +220,7 @@ def check(ctx):
 
     # ---- R3 -----------------------------------------------------------------
     pl = m.func(SW, 'Swarm.parallel')
-    body = [s for s in pl.node.body if not (isinstance(s, ast.Expr) and isinstance(s.value, ast.Constant))]
+    body = effective(pl.node.body)
     ok = len(body) == 1 and isinstance(body[0], ast.Try) and body[0].handlers and catches_everything(body[0].handlers[0]) and \
         not any(isinstance(x, ast.Raise) for h in body[0].handlers for s in h.body for x in walk_own(s)) and not body[0].finalbody
     ctx.inst('R3', pl, 'swallows-exceptions', ok, 'parallel must wrap its whole body in try/except Exception without re-raising')
@@ -253,9 +253,9 @@ def check(ctx):
     # ---- R5 -----------------------------------------------------------------
     ol = m.func(SW, 'Swarm.open_links')
     go = cfg_of(ol)
-    first = [e.dst for e in go.entry.succ][0]
-    ok = first.kind == 'if' and norm(first.ast.test) == 'self._is_open' and \
-        all(isinstance(s, ast.Raise) for s in first.ast.body[-1:])
+    eff_ = effective(ol.node.body)
+    ok = bool(eff_) and isinstance(eff_[0], ast.If) and norm(eff_[0].test) == 'self._is_open' and \
+        all(isinstance(s, ast.Raise) for s in effective(eff_[0].body)[-1:])
     ctx.inst('R5', ol, 'refuse-second-open', ok, 'open_links must start with `if self._is_open: raise`')
     sets = [n for n in go.nodes if n.kind == 'stmt' and isinstance(n.ast, ast.Assign) and norm(n.ast.targets[0]) == 'self._is_open'
             and isinstance(n.ast.value, ast.Constant) and n.ast.value.value is True]
